@@ -166,6 +166,7 @@ func (m *Machine) threadFinished(t *Thread) {
 	if next == nil {
 		return // path ended (deadlock reported)
 	}
+	m.tracef("end %s -> %s", t.name, next.name)
 	m.cur = next
 	next.resume <- struct{}{}
 }
@@ -300,6 +301,7 @@ func (m *Machine) transfer(next *Thread) {
 	if next == t {
 		return
 	}
+	m.tracef("switch %s -> %s [%s]", t.name, next.name, t.lastWhy)
 	m.cur = next
 	next.resume <- struct{}{}
 	<-t.resume
